@@ -37,7 +37,7 @@ KEM_OF = {'x25519': 'X25519HkdfSha256', 'p256': 'DhP256HkdfSha256', 'p384': 'DhP
 ALWAYS = ['setup::setup_sender', 'setup::setup_receiver', 'single_shot::single_shot_seal_in_place_detached',
           'single_shot::single_shot_open_in_place_detached', 'aead::AeadCtxS<A, Kdf, Kem>::seal_in_place_detached',
           'aead::AeadCtxR<A, Kdf, Kem>::open_in_place_detached', 'aead::AeadCtxS<A, Kdf, Kem>::export',
-          'aead::AeadCtxR<A, Kdf, Kem>::export', "op_mode::PskBundle<'a>::new", 'kem::Kem::gen_keypair']
+          'aead::AeadCtxR<A, Kdf, Kem>::export', "op_mode::PskBundle<'_>::new", 'kem::Kem::gen_keypair']
 ALLOC_ONLY = ['aead::AeadCtxS<A, Kdf, Kem>::seal', 'aead::AeadCtxR<A, Kdf, Kem>::open', 'single_shot::single_shot_seal',
               'single_shot::single_shot_open']
 
